@@ -679,8 +679,15 @@ def gen_world(rng, kind: str, backend: str) -> dict:
     now = rng.choice([0, 0, 2, 5])
     small = kind == "c14"
     disc = rng.choice([1, 1, 2, 3])
+    # "late" flavour: every (absolute) deadline is small and already (nearly) passed while the runtimes
+    # are long, the horizon is derived from the deadlines (default plan_ahead) and mostly a single
+    # worker is contended — the horizon `now + greatest deadline` is then shorter than a runtime, so
+    # the slot set of the variables and the slot set of the capacity rows are compared where they bite
+    late = rng.random() < 0.15
     n_pools = 1 if small or rng.random() < 0.5 else 2
     n_workers = rng.randint(1, 2) if small else rng.randint(1, 3)
+    if late and rng.random() < 0.7:
+        n_workers = 1
     pools = [{"name": f"P{i}", "workers": []} for i in range(n_pools)]
     for i in range(n_workers):
         res = [["CPU", rng.randint(1, 3)]]
@@ -704,7 +711,9 @@ def gen_world(rng, kind: str, backend: str) -> dict:
         "disc": disc,
         "plan_ahead": -1,
     }
-    explicit_pa = rng.random() < 0.3
+    explicit_pa = rng.random() < 0.3 and not late
+    if late:
+        flags["enforce_deadlines"] = rng.random() < 0.35
     # absolute deadlines must keep `now + max deadline` inside the slot budget when plan_ahead
     # is derived from them (the code uses the greatest *absolute* deadline as a duration)
     span = (max_slots - 1) * disc
@@ -774,7 +783,7 @@ def gen_world(rng, kind: str, backend: str) -> dict:
                     req = [["GPU", 1]] if has_gpu else req
                 if rng.random() < 0.05:
                     req = [["CPU", 0]]  # zero request
-                strats.append({"batch": 1, "runtime": rng.randint(1, 5), "req": req})
+                strats.append({"batch": 1, "runtime": rng.randint(4, 9) if late else rng.randint(1, 5), "req": req})
             tasks.append({"name": f"T{ti}", "ts": 0, "strats": strats})
         states = {}
         for ti, t in enumerate(tasks):
@@ -834,7 +843,9 @@ def gen_world(rng, kind: str, backend: str) -> dict:
                     t["prev"] = {"w": wi, "s": si, "time": t["release"], "sched_at": t["release"], "finish": now}
             fastest = min(s["runtime"] for s in t["strats"])
             r = rng.random()
-            if kind == "deadline":
+            if late:
+                d = rng.randint(0, 6)  # absolute, smaller than the runtimes
+            elif kind == "deadline":
                 d = now + fastest + rng.choice([-2, -1, 0, 1, 2, 3, 8])
             elif r < 0.08:
                 d = now + fastest - rng.randint(0, 2)  # hopeless / boundary
@@ -953,6 +964,32 @@ def corpus(kind: str) -> list[dict]:
                 ],
                 "flags": dict(flags, plan_ahead=2),
                 "uuid_seed": 5,
+            }
+        )
+        # late tasks without enforcement (seeded change C10-7): two 1-CPU tasks of runtime 9 whose
+        # deadline 6 has no chance, one 1-CPU worker, default plan_ahead: the horizon now + 6 is shorter
+        # than a runtime; a RUNNING task on another pool contributes the only other deadline (5)
+        out.append(
+            {
+                "backend": backend,
+                "now": 2,
+                "pools": [
+                    {"name": "Cpu", "workers": [{"name": "CpuW", "res": [["CPU", 1]]}]},
+                    {"name": "Gpu", "workers": [{"name": "GpuW", "res": [["GPU", 1]]}]},
+                ],
+                "graphs": [
+                    {
+                        "name": "G",
+                        "tasks": [
+                            task("Running", "RUNNING", [{"batch": 1, "runtime": 3, "req": [["GPU", 1]]}], 5, release=0, prev={"w": 1, "s": 0, "time": 0, "sched_at": 0, "remaining": 1}),
+                            task("Late1", "RELEASED", [st(9)], 6, release=1),
+                            task("Late2", "RELEASED", [st(9)], 6, release=2),
+                        ],
+                        "edges": [],
+                    }
+                ],
+                "flags": dict(flags, enforce_deadlines=False),
+                "uuid_seed": 8,
             }
         )
     # C14-TETRI-3 (Gurobi, parent count): join J SCHEDULED, parent A COMPLETED, parent B RUNNING
